@@ -410,6 +410,10 @@ def scenarios(tier="quick"):
     s, _ = _pre(); s.put(A, "hello"); s.put(B, "world!"); s.start(); s.write(7, A); s.write(7, B); s.write(8, A)
     add("drain_dup", s, ["timeout"])
 
+    # a file saved EMPTY (truncated to nothing) is a file like any other: its - empty - version is owed
+    s, _ = _pre(); s.put(A, ""); s.put(B, "world!"); s.start(); s.write(7, A); s.write(7, B)
+    add("drain_empty", s, ["timeout"])
+
     s, _ = _pre(); s.put(A, "new content"); s.put(R + "/k/store/inc/a.txt/v1000000.txt", "old"); s.put(R + "/k/store/inc/a.txt/v1000000-1.txt", "old1")
     s.start(); s.write(7, A)
     add("drain_collision", s, ["timeout"])
@@ -795,7 +799,8 @@ def gen_project_case(rng):
     s.exec(3, X + "/vim")
     if rng.random() < 0.4:
         s.add("ftsrev 1")
-    files = [WATCH + "/proj/README", WATCH + "/proj/src/m.c", WATCH + "/proj/src/deep/x/y.h", WATCH + "/pp/p1/f.c",
+    # (m.c~ : an editor's backup copy beside the file - a member like any other, whatever suffix it has)
+    files = [WATCH + "/proj/README", WATCH + "/proj/src/m.c", WATCH + "/proj/src/m.c~", WATCH + "/proj/src/deep/x/y.h", WATCH + "/pp/p1/f.c",
              WATCH + "/pp/p1/sub/g.c", WATCH + "/pp/p2/h", WATCH + "/pp/loose.txt", WATCH + "/inc/a.txt"]
     exists = set()
     blockers = set()
@@ -805,7 +810,7 @@ def gen_project_case(rng):
     if rng.random() < 0.25:
         # the project store is unusable for a while (a stray regular file where its directory belongs): the pass that
         # wants to snapshot fails; after repair and restart the snapshot is still owed
-        f = rng.choice(files[:6])
+        f = rng.choice(files[:7])
         s.put(R + "/k/projects", "stray")
         s.put(f, "c0")
         exists.add(f)
